@@ -111,6 +111,22 @@ CHECKS = {
         "property-based testing: proptest round-trip / idempotence oracle (+ libFuzzer round-trip target)",
         "DESIGN.md §5 C14",
     ),
+    "C15": (
+        "core+wire",
+        "exploration",
+        "Two generated searches: (1) exhaustive containment - all 115 600 (grant, request) pairs of patterns over {a,b,?,#} up to depth 4: whenever the authorization matcher accepts the request for the grant, every key over {a,b} up to depth 5 selected by the request must be selected by the grant; (2) 3 k (thorough 150 k) sessions against a server with an HS256 key: harness-minted tokens (valid/expired/wrong secret/garbage/none) with generated grant lists, 1-15 requests over 17 request kinds, an unrestricted observer reads the store around every request: nothing served/changed before a valid token, served => covered for the right privilege, refused => err 14 and no effect.",
+        "'Covered' is decided over a finite key universe (keys over {a,b,c} to depth 4 + some $SYS keys) with the most permissive matching relation on both sides, so it can miss but not falsely accuse. Refusing a covered request is not a violation.",
+        "property-based testing: exhaustive pattern-pair enumeration + proptest sessions with a containment / observer oracle",
+        "DESIGN.md §5 C15",
+    ),
+    "C16": (
+        "core (paused clock) + wire",
+        "exploration",
+        "Timing is explored deterministically: the real aggregator runs on tokio's paused clock, 30 k (thorough 1 M) generated event schedules (bursts, repeats of a key and set/delete alternations inside one interval, gaps around the interval) are fed at exact virtual instants; per key the emitted sequence must equal the fed one and every event must be emitted within the interval. Content is checked independently of timing on 1.5 k live sessions with a plain and an aggregated subscription of the same pattern, read until a marker arrived on both.",
+        "The delay bound is asserted with a client channel that always has capacity (the property's 'once the client connection can take it'). The live part asserts only timing-independent facts.",
+        "property-based testing: proptest schedules on a virtual clock (delay bound + sequence-equality oracle) and differential plain-vs-aggregated subscription on a live session",
+        "DESIGN.md §5 C16",
+    ),
     "C17": (
         "wire",
         "exploration",
